@@ -868,7 +868,13 @@ class DefaultModule(CtxVC):
         hp = st.get(self.parent)
         self.pd, self.pv = hp.dom, hp.val
         self.kd = st.get(self.gkeys).dom
-        self.ctx = A.obj(st, R.Context, "ctx", fields={"globals_keys": self.gkeys, "parent": self.parent})
+        # the globals of the importing template, which the context was created with: globals_keys = set(globals) (Context.__init__)
+        self.tglobals = A.adict(st, "template_globals", "str", "obj")
+        hg = st.get(self.tglobals)
+        self.Gd, self.Gv = hg.dom, hg.val
+        qg = z3.Const("q_globals", S_)
+        st.assume(z3.ForAll([qg], z3.Select(self.kd, qg) == z3.Select(self.Gd, qg)))
+        self.ctx = A.obj(st, R.Context, "ctx", fields={"globals_keys": self.gkeys, "parent": self.parent, "template_globals": self.tglobals})
         return [self.t, self.ctx], {}
 
     def extra(self, q):
@@ -908,11 +914,8 @@ class DefaultModule(CtxVC):
             dom, k, v = g
             if k is None:
                 return False
-            # generic extra key k: it is passed on iff the context can supply it, with the context's value
-            kept = st.get(mk[0].args[1]).fields.get("kept", True)
-            has = z3.Select(self.pd, k.t)
-            val_ok = (to_term(v, "obj") == z3.Select(self.pv, k.t)) if kept else z3.BoolVal(True)
-            return z3.And(any_extra, z3.ForAll([q], z3.Select(dom, q) == self.extra(q)), has if kept else z3.Not(has), val_ok)
+            # (which of the extra keys are passed on, and with which value: clause module_vars_are_the_template_globals)
+            return z3.And(any_extra, z3.ForAll([q], z3.Select(dom, q) == self.extra(q)))
         # cached module: built once with no vars and stored
         if mk:
             if len(mk) != 1 or out.value is not mk[0].result or now is not mk[0].result:
@@ -922,10 +925,29 @@ class DefaultModule(CtxVC):
             return False
         return z3.And(z3.Not(any_extra), self.has_cache.t)
 
+    def p_values(self, pre, out):
+        """every extra global k of the importing template is handed to the module, with the GLOBAL's value - not with whatever the
+        context's `parent` holds under that name (render variables replace globals there; a shared context does not hold them at all)"""
+        if out.raised or not self.ctx_given:
+            return None
+        mk = [e for e in A.calls(out, "self.make_module") if len(e.args) > 1 or e.kwargs]
+        if len(mk) != 1 or len(mk[0].args) != 2:
+            return None
+        g = gm(out.st, mk[0].args[1])
+        if g is None or g[1] is None:
+            return None
+        dom, k, v = g
+        kept = out.st.get(mk[0].args[1]).fields.get("kept", True)
+        if not kept:
+            return z3.Not(z3.Select(self.Gd, k.t))  # dropped although it is one of the template's globals
+        return to_term(v, "obj") == z3.Select(self.Gv, k.t)
+
     posts = [("raises_only_documented_RuntimeError", p_total), ("sync_module_refused_in_async_environment", p_async_refused),
-             ("cached_without_vars_or_uncached_from_extra_globals", p_result)]
+             ("cached_without_vars_or_uncached_from_extra_globals", p_result), ("module_vars_are_the_template_globals", p_values)]
 
     def replay(self, w):
+        if "module_vars_are_the_template_globals" in str((w or {}).get("obligation", "")):
+            return native_import_sees_globals(w)
         v, d = native_shared_globals(w)
         if v:
             return v, d
@@ -934,12 +956,45 @@ class DefaultModule(CtxVC):
     def concretize(self, model, pre, out):
         return {"vc": self.name, "raises": repr(out.value) if out.raised else None}
 
+    def discharge(self, name, pc, cond, timeout, seed, pre, out):
+        r = CtxVC.discharge(self, name, pc, cond, timeout, seed, pre, out)
+        if r.status == "refuted" and isinstance(r.witness, dict):
+            r.witness["obligation"] = name
+        return r
+
     def finding_key(self, res):
         w = res.witness or {}
         r = w.get("raises") or ""
         if "KeyError" in r:
             return "KeyError:extra-global-not-in-ctx.parent"
+        if "module_vars_are_the_template_globals" in res.name:
+            return "module-vars-read-from-ctx.parent"
         return f"other:{r}"
+
+
+def native_import_sees_globals(w=None):
+    """an import without context sees the importing template's globals - their values, from wherever it is executed - and never a
+    render variable of the same name"""
+    problems = []
+    for is_async in (False, True):
+        lib = "{% macro m() %}[{{ foo }}]{% endmacro %}{% set top = foo %}"
+        env = _env({"lib": lib, "main": "{% import 'lib' as l %}{{ l.m() }}{{ l.top }}", "main_from": "{% from 'lib' import m, top %}{{ m() }}{{ top }}",
+                    "scoped": "{% block plain %}{% import 'lib' as l %}{{ l.m() }}{% endblock %}{% for i in [1] %}{% block sc scoped %}{% import 'lib' as l %}{{ l.m() }}{% endblock %}{% endfor %}",
+                    "inc": "{% import 'lib' as l %}{{ l.m() }}", "outer": "{% include 'inc' %}"}, is_async)
+        for name in ("main", "main_from"):
+            t = env.get_template(name, globals={"foo": "GLOBAL"})
+            for kw in ({}, {"foo": "CONTEXT-VAR"}):
+                got = _render(env, t, **kw)
+                if got != "[GLOBAL]GLOBAL":
+                    problems.append(f"async={is_async} {name} rendered with {kw}: {got!r}, expected '[GLOBAL]GLOBAL' (an import without context must not see render variables)")
+        got = _render(env, env.get_template("scoped", globals={"foo": "G"}))
+        if got != "[G][G]":
+            problems.append(f"async={is_async} import inside a scoped block: {got!r}, expected '[G][G]'")
+        env.get_template("inc", globals={"foo": "GLOBAL"})
+        got = _render(env, "outer", foo="CONTEXT-VAR")
+        if got != "[GLOBAL]":
+            problems.append(f"async={is_async} import inside an included template loaded with globals: {got!r}, expected '[GLOBAL]'")
+    return (bool(problems), "; ".join(problems[:2]) or "imports see the importing template's globals")
 
 
 class ModuleInit(CtxVC):
@@ -1554,7 +1609,9 @@ def dump_local_context_task(task, tier, seed):
 
 EMIT_TASKS = (
     [IncludeTask("C05", f"C05.emit.include[{k}]", "jinja2.compiler:CodeGenerator.visit_Include", N.Include, include_pred(fn), mode="stmts", buffers=(None, "t_buf"),
-                 replay_fn=native_all, node_fields=include_fields(k), min_paths=16) for k, fn in INCLUDE_KINDS.items()]
+                 replay_fn=native_all, node_fields=include_fields(k), min_paths=16,
+                 # a frame that renders its output (whether an include renders at all in a template that extends: C04.emit.output_check.visit_Include)
+                 frame_flags={"require_output_check": False}) for k, fn in INCLUDE_KINDS.items()]
     + [EmitTask("C05", "C05.emit.import", "jinja2.compiler:CodeGenerator.visit_Import", N.Import, import_pred, mode="stmts", buffers=(None, "t_buf"),
                 replay_fn=native_context, min_paths=20),
        EmitTask("C05", "C05.emit.from_import[name, name as alias]", "jinja2.compiler:CodeGenerator.visit_FromImport", N.FromImport, from_pred([("n0", "n0"), ("n1", "a1")]),
@@ -1973,3 +2030,102 @@ META = {
     "trusted_base": ["z3 5.1 / cvc5 1.0.3", "pyvc symbolic executor and emission engine", "dict(a, **b) / dict.items / set(mapping) / set difference / "
                      "dict comprehension over a set (generic member) dependency specs (contracts/c05.py)", "C01 abstract token stream model (contracts/c01_parser.py)"],
 }
+
+
+# ================================================================== hunt round: derived contexts keep the template globals; `loop` for includes
+
+from contracts.c04 import ContextDerived as _C04Derived, ForScopedBlockTask as _ForTask  # noqa: E402
+
+
+class DerivedKeepsGlobals(_C04Derived):
+    """C05.Context.derived.keeps_template_globals: the context derived for a scoped block (or a pass_context call) belongs to the
+    same template: it remembers the same globals (globals_keys, and the mapping when the context keeps one), so that an import
+    without context executed in it sees the template's globals like anywhere else in the template."""
+
+    def __init__(self):
+        _C04Derived.__init__(self)
+        self.prop = "C05"
+        self.name = "C05.Context.derived.keeps_template_globals"
+
+    def configure(self, I):
+        _C04Derived.configure(self, I)
+        base = I.specs["jinja2.runtime:new_context"]
+
+        def new_context_spec(I_, st, args, kwargs, node):
+            rs = base(I_, st, args, kwargs, node)
+            for s, r in rs:
+                # Context.__init__ with globals=None (C04.Context.__init__[globals=None]): no globals remembered
+                s.get(r).fields["globals_keys"] = s.alloc(HSet(items=[]))
+                s.get(r).fields["template_globals"] = s.alloc(HDict(items={}))
+            return rs
+
+        I.specs["jinja2.runtime:new_context"] = new_context_spec
+
+    def p_globals(self, pre, out):
+        if out.raised:
+            return False
+        f = out.st.get(out.value).fields
+        gk = f.get("globals_keys")
+        if gk == self.gkeys:
+            ok_keys = True
+        elif isinstance(gk, Ref) and isinstance(out.st.get(gk), HSet) and out.st.get(gk).items is None:
+            q = z3.Const(fresh_name("q"), S_)
+            ok_keys = z3.ForAll([q], z3.Select(out.st.get(gk).dom, q) == z3.Select(out.st.get(self.gkeys).dom, q))
+        else:
+            ok_keys = False  # e.g. the empty set of a context created with globals=None
+        if ok_keys is False:
+            return False
+        tg = f.get("template_globals")
+        return ok_keys if tg == self.tglobals else False
+
+    posts = [("same_globals_as_the_receiver", p_globals)]
+
+    def replay(self, w):
+        return native_import_sees_globals(w)
+
+    def finding_key(self, res):
+        return "derived-context-forgets-globals"
+
+
+class ForContextTask(_ForTask):
+    """C05.emit.for.context_sees_loop[<shape>]: the real visit_For on a loop whose body (a concrete small tree of symbolic statements)
+    contains include / import / from-import statements with a symbolic `with_context` flag, anywhere in the subtree.  Obligation: on
+    every path on which the special `loop` variable is not created, every such statement is known to be `without context` - a template
+    included or imported with context is handed the current locals (dump_local_context) and must find THIS loop's `loop` among them."""
+    shapes = {"I": ("I",), "M": ("M",), "F": ("F",), "If[I]": (("If", ("I",)),), "With[M]": (("With", ("M",)),), "For[I]": (("For", ("I",)),),
+              "S,If[F],I": ("S", ("If", ("F",)), "I"), "B,If[I]": ("B", ("If", ("I",)))}
+
+    def __init__(self, label):
+        _ForTask.__init__(self, label)
+        self.prop = "C05"
+        self.name = f"C05.emit.for.context_sees_loop[{label}]"
+
+    def replay(self, w):
+        return native_loop_in_include(w)
+
+    def finding_key(self, res):
+        import re
+        m = re.search(r"\[([a-z][a-z0-9_.-]+)\]", res.detail or "")
+        return m.group(1) if m else "other"
+
+
+def native_loop_in_include(w=None):
+    problems = []
+    for is_async in (False, True):
+        env = _env({"inc": "{{ loop.index if loop is defined else '?' }}", "lib": "{% macro m() %}{{ loop.index if loop is defined else '?' }}{% endmacro %}",
+                    "single": "{% for j in 'xyz' %}{% include 'inc' %}{% endfor %}",
+                    "nested": "{% for i in 'ab' %}{{ loop.index }}:{% for j in 'xyz' %}{% include 'inc' %}{% endfor %};{% endfor %}",
+                    "nested_if": "{% for i in 'ab' %}{% for j in 'xyz' %}{% if j %}{% include 'inc' %}{% endif %}{% endfor %};{% endfor %}",
+                    "imp": "{% for j in 'xyz' %}{% from 'lib' import m with context %}{{ m() }}{% endfor %}",
+                    "imp2": "{% for j in 'xyz' %}{% import 'lib' as l with context %}{{ l.m() }}{% endfor %}",
+                    "nocontext": "{% for j in 'xy' %}{% include 'inc' without context %}{% endfor %}",
+                    "control": "{% for j in 'xyz' %}{% if loop.first %}{% endif %}{% include 'inc' %}{% endfor %}"}, is_async)
+        for name, want in (("single", "123"), ("nested", "1:123;2:123;"), ("nested_if", "123;123;"), ("imp", "123"), ("imp2", "123"), ("nocontext", "??"), ("control", "123")):
+            got = _render(env, name)
+            if got != want:
+                problems.append(f"async={is_async} {name}: rendered {got!r}, expected {want!r} (an include / import with context sees the current loop's `loop`)")
+    return (bool(problems), "; ".join(problems[:2]) or "includes and imports with context see the innermost loop")
+
+
+HUNT_TASKS = [DerivedKeepsGlobals()] + [ForContextTask(k) for k in ForContextTask.shapes]
+TASKS = TASKS + HUNT_TASKS
